@@ -1567,13 +1567,327 @@ Proof.
   cbn [fst snd]. f_equal. f_equal.
   rewrite bhdr_set_size, thdr_set_size by auto.
   pose proof (ghdr_set_size sg vr ex (T1 ++ t :: T2) (group_size g + 8) Wg) as EGS. fold g in EGS. rewrite EGS.
-  unfold enc_blob. cbn [bl_h1 bl_h2 bl_groups bl_slack s].
-  unfold blob_size. cbn [bl_groups]. rewrite GS'.
-  rewrite enc_groups_app, enc_groups_cons. unfold g' at 2. cbn [enc_group]. fold g'. rewrite gS'.
-  rewrite enc_types_app, enc_types_cons. unfold enc_type at 2. rewrite ins_tok_size.
-  unfold ins_tok at 1 2 3. cbn [ty_h1 ty_h2 ty_toks]. fold p.
-  rewrite enc_toks_app, enc_toks_cons. fold TA TB.
-  rewrite <- !app_assoc.
-  replace (128 + (groups_size G + 8)) with (128 + groups_size G + 8) by blia.
-  reflexivity.
+  assert (Eg' : enc_group g' =
+    (sg ++ le_enc 2 12288 ++ le_enc 2 (16 + zlen ex) ++ vr ++ le_enc 4 (group_size g + 8)) ++
+    (ex ++ enc_types T1) ++ (ty_h1 t ++ le_enc 2 (ty_size t + 8) ++ ty_h2 t) ++ TA ++ enc_pair (k, nv) ++
+    TB ++ enc_types T2).
+  { rewrite <- gS'. unfold g' at 1. cbn [enc_group]. fold g'.
+    rewrite enc_types_app, enc_types_cons. unfold enc_type. rewrite ins_tok_size.
+    unfold ins_tok. cbn [ty_h1 ty_h2 ty_toks]. fold p.
+    rewrite enc_toks_app, enc_toks_cons. fold TA TB. rewrite <- !app_assoc. reflexivity. }
+  unfold enc_blob. cbn [bl_h1 bl_h2 bl_groups bl_slack].
+  replace (blob_size (mkBlob h1 h2 (G1 ++ g' :: G2) (zskipn 8 S))) with (blob_size s + 8)
+    by (unfold blob_size; cbn [bl_groups s]; rewrite GS'; blia).
+  rewrite enc_groups_app, enc_groups_cons, Eg'. rewrite <- !app_assoc. reflexivity.
+Qed.
+
+Lemma upsert_enc_case2 k pm bm kind nv h1 h2 G1 sg vr ex tys G2 S :
+  let g := TokGroup sg vr ex tys in
+  let G := G1 ++ g :: G2 in
+  let s := mkBlob h1 h2 G S in
+  wf_blob s = true -> args_ok k pm bm kind nv -> zlen (enc_blob s) + 40 < 2 ^ 32 ->
+  any_changes kind pm bm k G = false ->
+  existsb (gmatch kind pm bm) G = false -> forallb (fun g => negb (is_tok g)) G2 = true ->
+  upsert k pm bm kind nv (enc_blob s) =
+    Ok (enc_blob (fst (upsert_blob k pm bm kind nv s)), snd (upsert_blob k pm bm kind nv s)).
+Proof.
+  intros g G s W (K & Hk & Hnv & Hpm & Hbm) Hbig CH NM NT.
+  rewrite upsert_after_scan by auto. cbn [bl_groups s]. fold G. rewrite CH.
+  rewrite sel_groups_nomatch by auto.
+  assert (ELT : last_tok G None 0 = Some (ghdr g, groups_size G1)).
+  { unfold G. rewrite last_tok_some by auto. rewrite Z.add_0_l. reflexivity. }
+  rewrite ELT.
+  pose proof (zlen_enc_blob s W) as L. destruct (blob_size_bounds s W) as (B1 & B2 & B3).
+  pose proof W as W'. apply wf_blob_spec in W' as (Lh1 & Lh2 & _ & _ & _ & _ & _ & WG & _).
+  cbn [bl_groups bl_h1 bl_h2 bl_slack s] in *.
+  destruct (wf_groups_mid _ _ _ WG) as (WG1 & Wg & WG2).
+  pose proof Wg as Wg'. apply wf_tokgroup_spec in Wg' as (Lsg & Lvr & _ & _ & _ & SH & WT & GSZ).
+  destruct (ghdr_tok_fields sg vr ex tys Wg) as (_ & HSZ). fold g in HSZ.
+  pose proof (ghdr_sizeof g Wg) as GSZe.
+  pose proof (zlen_enc_groups G1 WG1) as LG1. pose proof (zlen_enc_groups G2 WG2) as LG2.
+  pose proof (zlen_enc_types tys WT) as LT.
+  pose proof (groups_size_nonneg G1). pose proof (groups_size_nonneg G2).
+  pose proof (types_size_nonneg tys). pose proof (zlen_nonneg ex).
+  assert (GS : groups_size G = groups_size G1 + group_size g + groups_size G2).
+  { unfold G. rewrite groups_size_app, groups_size_cons. blia. }
+  assert (gS : group_size g = 16 + zlen ex + types_size tys) by reflexivity.
+  assert (BS : blob_size s = 128 + groups_size G) by reflexivity.
+  assert (Eb : enc_blob s = bhdr s ++ enc_groups G1 ++ ghdr g ++ (ex ++ enc_types tys) ++ enc_groups G2 ++ S).
+  { rewrite enc_blob_bhdr. cbn [bl_groups bl_slack s]. unfold G.
+    rewrite enc_groups_app, enc_groups_cons, enc_group_ghdr. unfold g at 2. cbn [gtail].
+    rewrite <- !app_assoc. reflexivity. }
+  rewrite Eb.
+  rewrite (insert_case2 k pm bm kind nv (blob_size s) (bhdr s) (enc_groups G1) (ghdr g) (ex ++ enc_types tys)
+             (enc_groups G2) S (groups_size G1) 0 false).
+  2:{ apply zlen_bhdr; auto. }
+  2:{ apply zlen_ghdr; auto. }
+  2:{ blia. }
+  2:{ rewrite GSZe, zlen_app. blia. }
+  2:{ rewrite HSZ. pw. blia. }
+  2:{ rewrite !zlen_app. blia. }
+  2:{ blia. }
+  rewrite GSZe.
+  set (nt := new_type kind pm bm k nv).
+  set (g' := TokGroup sg vr ex (tys ++ [nt])).
+  assert (ELF : last_group_match_full kind pm bm G = None) by (apply last_group_match_full_none; auto).
+  assert (EIL : ins_last_group kind pm bm k nv G = None) by (apply ins_last_group_none; auto).
+  assert (EAT : add_type_last nt G = Some (G1 ++ g' :: G2)) by (unfold G, g, g'; apply add_type_last_split; auto).
+  unfold upsert_blob. cbn [bl_groups bl_h1 bl_h2 bl_slack s]. fold G. rewrite CH, ELF.
+  unfold upsert_spec. rewrite CH, EIL. fold nt. rewrite EAT.
+  assert (gS' : group_size g' = group_size g + 24).
+  { unfold g'. cbn [group_size]. rewrite types_size_app, types_size_cons. unfold nt. rewrite new_type_size_spec.
+    change (types_size []) with 0. blia. }
+  assert (GS' : groups_size (G1 ++ g' :: G2) = groups_size G + 24).
+  { rewrite groups_size_app, groups_size_cons. blia. }
+  rewrite GS'. replace (groups_size G + 24 - groups_size G) with 24 by blia.
+  destruct (24 >? zlen S) eqn:Eroom.
+  { cbn [fst snd]. rewrite Eb. reflexivity. }
+  cbn [fst snd]. f_equal. f_equal.
+  rewrite bhdr_set_size by auto.
+  pose proof (ghdr_set_size sg vr ex tys (group_size g + 24) Wg) as EGS. fold g in EGS. rewrite EGS.
+  assert (Eg' : enc_group g' =
+    (sg ++ le_enc 2 12288 ++ le_enc 2 (16 + zlen ex) ++ vr ++ le_enc 4 (group_size g + 24)) ++
+    (ex ++ enc_types tys) ++ new_type_header kind pm bm ++ enc_pair (k, nv)).
+  { rewrite <- gS'. unfold g' at 1. cbn [enc_group]. fold g'.
+    rewrite enc_types_app, enc_types_cons. unfold nt. rewrite new_type_enc by auto.
+    cbn [enc_types map concat]. rewrite app_nil_r, <- !app_assoc. reflexivity. }
+  unfold enc_blob. cbn [bl_h1 bl_h2 bl_groups bl_slack].
+  replace (blob_size (mkBlob h1 h2 (G1 ++ g' :: G2) (zskipn 24 S))) with (blob_size s + 24)
+    by (unfold blob_size; cbn [bl_groups s]; rewrite GS'; blia).
+  rewrite enc_groups_app, enc_groups_cons, Eg'. rewrite <- !app_assoc. reflexivity.
+Qed.
+
+Lemma no_tok_no_match kind pm bm G : existsb is_tok G = false -> existsb (gmatch kind pm bm) G = false.
+Proof.
+  induction G as [|g r IH]; [reflexivity|]. cbn [existsb]. intros H.
+  apply orb_false_iff in H as [H1 H2]. rewrite IH by auto. destruct g; [discriminate|reflexivity].
+Qed.
+
+Lemma upsert_enc_case3 k pm bm kind nv h1 h2 G S :
+  let s := mkBlob h1 h2 G S in
+  wf_blob s = true -> args_ok k pm bm kind nv -> zlen (enc_blob s) + 40 < 2 ^ 32 ->
+  any_changes kind pm bm k G = false -> existsb is_tok G = false ->
+  upsert k pm bm kind nv (enc_blob s) =
+    Ok (enc_blob (fst (upsert_blob k pm bm kind nv s)), snd (upsert_blob k pm bm kind nv s)).
+Proof.
+  intros s W (K & Hk & Hnv & Hpm & Hbm) Hbig CH NT.
+  pose proof (no_tok_no_match kind pm bm G NT) as NM. pose proof (no_tok_forallb G NT) as NF.
+  rewrite upsert_after_scan by auto. cbn [bl_groups s]. rewrite CH.
+  rewrite sel_groups_nomatch by auto. rewrite last_tok_none by auto.
+  pose proof (zlen_enc_blob s W) as L. destruct (blob_size_bounds s W) as (B1 & B2 & B3).
+  pose proof W as W'. apply wf_blob_spec in W' as (Lh1 & Lh2 & _ & _ & _ & _ & _ & WG & _).
+  cbn [bl_groups bl_h1 bl_h2 bl_slack s] in *.
+  pose proof (zlen_enc_groups G WG) as LG. pose proof (groups_size_nonneg G).
+  assert (BS : blob_size s = 128 + groups_size G) by reflexivity.
+  rewrite enc_blob_bhdr at 1. cbn [bl_groups bl_slack s].
+  rewrite (insert_case3 k pm bm kind nv (blob_size s) (bhdr s) (enc_groups G) S 0 false).
+  2:{ apply zlen_bhdr; auto. }
+  2:{ blia. }
+  2:{ blia. }
+  set (nt := new_type kind pm bm k nv).
+  assert (ELF : last_group_match_full kind pm bm G = None) by (apply last_group_match_full_none; auto).
+  assert (EIL : ins_last_group kind pm bm k nv G = None) by (apply ins_last_group_none; auto).
+  assert (EAT : add_type_last nt G = None) by (apply add_type_last_none; auto).
+  unfold upsert_blob. cbn [bl_groups bl_h1 bl_h2 bl_slack s]. rewrite CH, ELF.
+  unfold upsert_spec. rewrite CH, EIL. fold nt. rewrite EAT.
+  assert (GS' : groups_size (G ++ [new_group nt]) = groups_size G + 40).
+  { rewrite groups_size_app, groups_size_cons. change (groups_size []) with 0. unfold new_group. cbn [group_size].
+    rewrite types_size_cons. unfold nt. rewrite new_type_size_spec. change (types_size []) with 0.
+    change (zlen (@nil Z)) with 0. blia. }
+  rewrite GS'. replace (groups_size G + 40 - groups_size G) with 40 by blia.
+  destruct (40 >? zlen S) eqn:Eroom.
+  { cbn [fst snd]. rewrite enc_blob_bhdr. reflexivity. }
+  cbn [fst snd]. f_equal. f_equal.
+  rewrite bhdr_set_size by auto.
+  unfold enc_blob. cbn [bl_h1 bl_h2 bl_groups bl_slack].
+  replace (blob_size (mkBlob h1 h2 (G ++ [new_group nt]) (zskipn 40 S))) with (blob_size s + 40)
+    by (unfold blob_size; cbn [bl_groups s]; rewrite GS'; blia).
+  rewrite enc_groups_app, enc_groups_cons. rewrite new_group_enc by reflexivity.
+  unfold nt. rewrite new_type_enc by auto. cbn [enc_groups map concat].
+  rewrite app_nil_r, <- !app_assoc. reflexivity.
+Qed.
+
+(* ---- the call on every well-formed blob ---- *)
+
+Theorem upsert_enc k pm bm kind nv s :
+  wf_blob s = true -> args_ok k pm bm kind nv -> zlen (enc_blob s) + 40 < 2 ^ 32 ->
+  upsert k pm bm kind nv (enc_blob s) =
+    Ok (enc_blob (fst (upsert_blob k pm bm kind nv s)), snd (upsert_blob k pm bm kind nv s)).
+Proof.
+  intros W A Hbig. destruct s as [h1 h2 G S].
+  destruct (any_changes kind pm bm k G) eqn:CH.
+  - destruct A as (K & _). rewrite upsert_after_scan by auto. cbn [bl_groups bl_h1 bl_h2 bl_slack]. rewrite CH.
+    unfold upsert_blob. cbn [bl_groups bl_h1 bl_h2 bl_slack]. rewrite CH. cbn [fst snd].
+    unfold upsert_spec. rewrite CH. reflexivity.
+  - destruct (existsb (gmatch kind pm bm) G) eqn:GM.
+    + destruct (gmatch_split kind pm bm G GM) as (G1 & sg & vr & ex & T1 & t & T2 & G2 & -> & M & N & N2).
+      apply upsert_enc_case1; auto.
+    + destruct (existsb is_tok G) eqn:TK.
+      * destruct (tok_split G TK) as (G1 & g & G2 & -> & T & F).
+        destruct g as [sg vr ex tys|]; [|discriminate].
+        apply upsert_enc_case2; auto.
+      * apply upsert_enc_case3; auto.
+Qed.
+
+(* ---- the result is again a well-formed blob ---- *)
+
+Lemma zlen_enc_blob' s : zlen (bl_h1 s) = 8 -> zlen (bl_h2 s) = 116 -> forallb wf_group (bl_groups s) = true ->
+  zlen (enc_blob s) = blob_size s + zlen (bl_slack s).
+Proof.
+  intros L1 L2 WG. unfold enc_blob. rewrite !zlen_app, le4, zlen_enc_groups, L1, L2 by auto. unfold blob_size. lia.
+Qed.
+
+Lemma wf_blob_intro s :
+  zlen (bl_h1 s) = 8 -> zlen (bl_h2 s) = 116 -> bytes_ok (bl_h1 s) = true -> bytes_ok (bl_h2 s) = true ->
+  rd 0 4 (bl_h1 s) = apcb_sig_v2 -> rd 20 4 (bl_h2 s) = apcb_sig_v3 -> rd 112 4 (bl_h2 s) = apcb_sig_end ->
+  forallb wf_group (bl_groups s) = true -> bytes_ok (bl_slack s) = true ->
+  blob_size s + zlen (bl_slack s) < 2 ^ 32 -> wf_blob s = true.
+Proof.
+  intros L1 L2 O1 O2 S1 S2 S3 WG OS B. unfold wf_blob.
+  rewrite zlen_enc_blob' by auto. rewrite O1, O2, WG, OS, S1, S2, S3, L1, L2, !Z.eqb_refl. cbn [andb].
+  clear_bools. lia.
+Qed.
+
+Lemma wf_upd_type kind pm bm k nv t : 0 <= nv < 2 ^ 32 -> wf_type t = true ->
+  wf_type (upd_type kind pm bm k nv t) = true.
+Proof.
+  intros Hnv W. pose proof (upd_type_size kind pm bm k nv t) as SZ.
+  unfold upd_type in *. destruct (ty_matches kind pm bm t); [|exact W].
+  apply wf_type_spec in W as (L1 & L2 & O1 & O2 & WP & S16).
+  unfold wf_type. cbn [ty_h1 ty_h2 ty_toks]. rewrite SZ, L1, L2, O1, O2. cbn [Z.eqb Pos.eqb andb].
+  replace (ty_size t <? 2 ^ 16) with true by lia. rewrite andb_true_r.
+  clear - WP Hnv. induction (ty_toks t) as [|p l IH]; [reflexivity|].
+  cbn [forallb] in WP. apply andb_true_iff in WP as [Wp Wl].
+  cbn [upd_toks map forallb]. fold (upd_toks k nv l). rewrite IH by auto. rewrite andb_true_r.
+  destruct (fst p =? k); [|exact Wp]. unfold wf_pair in *. cbn [fst snd]. lia.
+Qed.
+
+Lemma wf_upd_group kind pm bm k nv g : 0 <= nv < 2 ^ 32 -> wf_group g = true ->
+  wf_group (upd_group kind pm bm k nv g) = true.
+Proof.
+  intros Hnv W. pose proof (upd_group_size kind pm bm k nv g) as SZ.
+  destruct g as [sg vr ex tys|]; [|exact W].
+  apply wf_tokgroup_spec in W as (L1 & L2 & O1 & O2 & O3 & SH & WT & GS).
+  cbn [upd_group] in *. unfold wf_group. rewrite SZ. rewrite L1, L2, O1, O2, O3. cbn [Z.eqb Pos.eqb andb].
+  replace (16 + zlen ex <? 2 ^ 16) with true by lia.
+  replace (group_size (TokGroup sg vr ex tys) <? 2 ^ 32) with true by lia.
+  rewrite andb_true_r. cbn [andb].
+  clear - WT Hnv. induction tys as [|t l IH]; [reflexivity|].
+  cbn [forallb] in WT. apply andb_true_iff in WT as [Wt Wl].
+  cbn [map forallb]. rewrite IH, wf_upd_type by auto. reflexivity.
+Qed.
+
+Lemma wf_ins_tok k nv t : 0 <= k < 2 ^ 32 -> 0 <= nv < 2 ^ 32 -> wf_type t = true -> ty_size t + 8 <= 65535 ->
+  wf_type (ins_tok k nv t) = true.
+Proof.
+  intros Hk Hnv W F. pose proof (ins_tok_size k nv t) as SZ.
+  apply wf_type_spec in W as (L1 & L2 & O1 & O2 & WP & S16).
+  unfold wf_type. rewrite SZ. unfold ins_tok. cbn [ty_h1 ty_h2 ty_toks].
+  rewrite L1, L2, O1, O2. cbn [Z.eqb Pos.eqb andb].
+  replace (ty_size t + 8 <? 2 ^ 16) with true by (pw; lia). rewrite andb_true_r.
+  rewrite forallb_app. cbn [forallb].
+  rewrite <- (firstn_skipn (ins_pos k (ty_toks t)) (ty_toks t)) in WP. rewrite forallb_app in WP.
+  apply andb_true_iff in WP as [W1 W2]. rewrite W1, W2. unfold wf_pair. cbn [fst snd]. lia.
+Qed.
+
+Lemma wf_new_type kind pm bm k nv : args_ok k pm bm kind nv -> wf_type (new_type kind pm bm k nv) = true.
+Proof.
+  intros (K & Hk & Hnv & Hpm & Hbm). unfold wf_type, new_type. cbn [ty_h1 ty_h2 ty_toks].
+  rewrite !zlen_app, !le2. rewrite !bytes_ok_app, !le_enc_ok.
+  change (ty_size (mkType _ _ [(k, nv)])) with 24.
+  cbn [zlen length Z.of_nat Z.add Pos.add Pos.succ Z.eqb Pos.eqb andb forallb Pos.of_succ_nat].
+  unfold wf_pair; cbn [fst snd]. unfold bytes_ok; cbn [forallb]. unfold byte_ok.
+  clear K. lia.
+Qed.
+
+Lemma wf_new_group nt : wf_type nt = true -> ty_size nt = 24 -> wf_group (new_group nt) = true.
+Proof.
+  intros W SZ. unfold new_group, wf_group. cbn [group_size]. rewrite types_size_cons, SZ.
+  change (types_size []) with 0. change (zlen (@nil Z)) with 0.
+  rewrite !zlen_app, !le2, le4. rewrite !bytes_ok_app, !le_enc_ok. cbn [forallb]. rewrite W. reflexivity.
+Qed.
+
+Lemma forallb_mid {A} (f : A -> bool) l1 x l2 :
+  forallb f l1 = true -> f x = true -> forallb f l2 = true -> forallb f (l1 ++ x :: l2) = true.
+Proof. intros H1 H2 H3. rewrite forallb_app. cbn [forallb]. rewrite H1, H2, H3. reflexivity. Qed.
+
+Theorem upsert_blob_wf k pm bm kind nv s :
+  wf_blob s = true -> args_ok k pm bm kind nv -> zlen (enc_blob s) + 40 < 2 ^ 32 ->
+  wf_blob (fst (upsert_blob k pm bm kind nv s)) = true.
+Proof.
+  intros W A Hbig. pose proof A as (K & Hk & Hnv & Hpm & Hbm).
+  pose proof (zlen_enc_blob s W) as L. destruct (blob_size_bounds s W) as (B1 & B2 & B3).
+  pose proof W as W'. apply wf_blob_spec in W' as (Lh1 & Lh2 & O1 & O2 & S1 & S2 & S3 & WG & OS & _).
+  destruct s as [h1 h2 G S]. cbn [bl_h1 bl_h2 bl_groups bl_slack] in *.
+  unfold upsert_blob. cbn [bl_h1 bl_h2 bl_groups bl_slack].
+  assert (OSk : forall n, bytes_ok (zskipn n S) = true) by (intros; apply bytes_ok_skipn; auto).
+  unfold blob_size in *. cbn [bl_groups] in *.
+  destruct (any_changes kind pm bm k G) eqn:CH; cbn [fst].
+  - unfold upsert_spec. rewrite CH. apply wf_blob_intro; cbn [bl_h1 bl_h2 bl_groups bl_slack]; auto.
+    + clear - WG Hnv. induction G as [|g r IH]; [reflexivity|].
+      cbn [forallb] in WG. apply andb_true_iff in WG as [Wg Wr].
+      cbn [map forallb]. rewrite IH, wf_upd_group by auto. reflexivity.
+    + unfold blob_size. cbn [bl_groups]. rewrite groups_size_upd. clear_bools. lia.
+  - destruct (existsb (gmatch kind pm bm) G) eqn:GM.
+    + destruct (gmatch_split kind pm bm G GM) as (G1 & sg & vr & ex & T1 & t & T2 & G2 & -> & M & N & N2).
+      rewrite last_group_match_full_split by auto.
+      destruct (ty_size t + 8 >? 65535) eqn:Efull; [exact W|].
+      unfold upsert_spec. rewrite CH. rewrite ins_last_group_split by auto.
+      destruct (wf_groups_mid _ _ _ WG) as (WG1 & Wg & WG2).
+      pose proof Wg as Wg'. apply wf_tokgroup_spec in Wg' as (Lsg & Lvr & Osg & Ovr & Oex & SH & WT & GSZ).
+      destruct (wf_types_mid _ _ _ WT) as (WT1 & Wt & WT2).
+      set (g' := TokGroup sg vr ex (T1 ++ ins_tok k nv t :: T2)).
+      set (g := TokGroup sg vr ex (T1 ++ t :: T2)) in *.
+      assert (gS' : group_size g' = group_size g + 8).
+      { unfold g', g. cbn [group_size]. rewrite !types_size_app, !types_size_cons, ins_tok_size. lia. }
+      assert (GS' : groups_size (G1 ++ g' :: G2) = groups_size (G1 ++ g :: G2) + 8).
+      { rewrite !groups_size_app, !groups_size_cons. lia. }
+      rewrite GS'. replace (groups_size (G1 ++ g :: G2) + 8 - groups_size (G1 ++ g :: G2)) with 8 by lia.
+      destruct (8 >? zlen S) eqn:Eroom; [exact W|]. cbn [fst].
+      apply wf_blob_intro; cbn [bl_h1 bl_h2 bl_groups bl_slack]; auto.
+      * apply forallb_mid; auto. unfold g', wf_group. fold g'. rewrite gS'.
+        rewrite Lsg, Lvr, Osg, Ovr, Oex. cbn [Z.eqb Pos.eqb andb].
+        replace (16 + zlen ex <? 2 ^ 16) with true by lia. cbn [andb].
+        rewrite forallb_mid; auto.
+        -- cbn [andb]. pose proof (groups_size_nonneg G1). pose proof (groups_size_nonneg G2).
+           rewrite groups_size_app, groups_size_cons in B2. clear_bools. lia.
+        -- apply wf_ins_tok; auto. lia.
+      * unfold blob_size. cbn [bl_groups]. rewrite GS', zlen_zskipn by lia. clear_bools. lia.
+    + rewrite last_group_match_full_none by auto.
+      unfold upsert_spec. rewrite CH. rewrite ins_last_group_none by auto.
+      set (nt := new_type kind pm bm k nv).
+      assert (Wnt : wf_type nt = true) by (apply wf_new_type; auto).
+      destruct (existsb is_tok G) eqn:TK.
+      * destruct (tok_split G TK) as (G1 & g & G2 & -> & T & F).
+        destruct g as [sg vr ex tys|]; [|discriminate].
+        rewrite add_type_last_split by auto.
+        destruct (wf_groups_mid _ _ _ WG) as (WG1 & Wg & WG2).
+        pose proof Wg as Wg'. apply wf_tokgroup_spec in Wg' as (Lsg & Lvr & Osg & Ovr & Oex & SH & WT & GSZ).
+        set (g' := TokGroup sg vr ex (tys ++ [nt])).
+        set (g := TokGroup sg vr ex tys) in *.
+        assert (gS' : group_size g' = group_size g + 24).
+        { unfold g', g. cbn [group_size]. rewrite !types_size_app, !types_size_cons.
+          change (ty_size nt) with 24. change (types_size []) with 0. lia. }
+        assert (GS' : groups_size (G1 ++ g' :: G2) = groups_size (G1 ++ g :: G2) + 24).
+        { rewrite !groups_size_app, !groups_size_cons. lia. }
+        rewrite GS'. replace (groups_size (G1 ++ g :: G2) + 24 - groups_size (G1 ++ g :: G2)) with 24 by lia.
+        destruct (24 >? zlen S) eqn:Eroom; [exact W|]. cbn [fst].
+        apply wf_blob_intro; cbn [bl_h1 bl_h2 bl_groups bl_slack]; auto.
+        -- apply forallb_mid; auto. unfold g', wf_group. fold g'. rewrite gS'.
+           rewrite Lsg, Lvr, Osg, Ovr, Oex. cbn [Z.eqb Pos.eqb andb].
+           replace (16 + zlen ex <? 2 ^ 16) with true by lia. cbn [andb].
+           rewrite forallb_app. cbn [forallb]. rewrite WT, Wnt. cbn [andb].
+           pose proof (groups_size_nonneg G1). pose proof (groups_size_nonneg G2).
+           rewrite groups_size_app, groups_size_cons in B2. clear_bools. lia.
+        -- unfold blob_size. cbn [bl_groups]. rewrite GS', zlen_zskipn by lia. clear_bools. lia.
+      * rewrite add_type_last_none by (apply no_tok_forallb; auto).
+        assert (GS' : groups_size (G ++ [new_group nt]) = groups_size G + 40).
+        { rewrite groups_size_app, groups_size_cons. change (groups_size []) with 0. unfold new_group. cbn [group_size].
+          rewrite types_size_cons. change (ty_size nt) with 24. change (types_size []) with 0.
+          change (zlen (@nil Z)) with 0. lia. }
+        rewrite GS'. replace (groups_size G + 40 - groups_size G) with 40 by lia.
+        destruct (40 >? zlen S) eqn:Eroom; [exact W|]. cbn [fst].
+        apply wf_blob_intro; cbn [bl_h1 bl_h2 bl_groups bl_slack]; auto.
+        -- rewrite forallb_app. cbn [forallb]. rewrite WG, wf_new_group by auto. reflexivity.
+        -- unfold blob_size. cbn [bl_groups]. rewrite GS', zlen_zskipn by lia. clear_bools. lia.
 Qed.
